@@ -375,7 +375,10 @@ func GenerateInterface(p Printer, msg *protogen.Message) {
 		GenerateOneofDiscriminatedUnionType(p, name, info)
 	}
 
-	if hasFlattenedOneof {
+	// A discriminated oneof puts its discriminator and the selected variant at the top level of the
+	// message on the wire, flattened or not: the message type is the intersection of its plain members
+	// with the union of each such oneof.
+	if hasFlattenedOneof || len(discriminatedOneofs) > 0 {
 		GenerateFlattenedOneofInterface(p, msg, name, discriminatedOneofs)
 	} else {
 		GenerateStandardInterface(p, msg, name, discriminatedOneofs)
@@ -426,6 +429,8 @@ func GenerateOneofDiscriminatedUnionType(p Printer, msgName string, info *annota
 		}
 		branches = append(branches, branch)
 	}
+	// A oneof may be unset: neither the discriminator nor a variant is on the wire then
+	branches = append(branches, fmt.Sprintf("{ %s?: undefined }", info.Discriminator))
 
 	p("export type %s =", unionName)
 	for i, branch := range branches {
